@@ -7,6 +7,8 @@ harness/rngdrv.c, preceded by a directive comment
                                             runs (same seed, same calls; different histories / threads)
     #! kind=spec                            integer-only; the implementation's output must equal the documented
                                             generator's (rngmain spec)
+    #! kind=threads                         every run on its own thread: the output of every run must be the same when
+                                            the threads run all at once (conc) as when they run one after the other (seq)
     #! kind=corr mode=seq|conc              integer-only; implementation vs. the regenerated Lean model, every line
 
 `mode`: seq = every run on its own fresh thread, one after the other; conc = all runs at once on their own threads;
@@ -173,6 +175,24 @@ def gen_corr(r, big=False):
     return Scenario("corr", r.choice(["seq", "seq", "conc"]), runs)
 
 
+def gen_threads(r, storm=False):
+    """Several threads at once, each seeding itself (repeatedly, if `storm`) and drawing; what one thread gets must not
+    depend on the others."""
+    runs = []
+    for _ in range(r.choice([2, 3, 4, 8, 16]) if not storm else r.choice([8, 16])):
+        ops = []
+        if storm:
+            for _ in range(r.choice([100, 300])):
+                ops += ["seed %d" % r.getrandbits(64), r.choice(["raw 1", "flip 3", "raw 2", "dist std_gamma 1 2.5", "dist geometric 1 0.3"])]
+        else:
+            ops.append("seed %d" % seed_value(r))
+            for _ in range(r.choice([3, 6, 12, 25])):
+                k = r.random()
+                ops.append("seed %d" % seed_value(r) if k < 0.1 else (dist_op(r) if k < 0.5 else int_op(r, big=True)))
+        runs.append(ops)
+    return Scenario("threads", "conc", runs)
+
+
 def spec_scenarios(r, n_random):
     seeds = list(SPECIAL_SEEDS) + [r.getrandbits(64) for _ in range(n_random)]
     return [Scenario("spec", "seq", [["seed %d" % s, "raw 40", "u53 4", "rawd %d" % r.choice([1000, 30000]), "raw 3"]]) for s in seeds]
@@ -183,6 +203,8 @@ def nontrivial(sc):
     history used one; corr: a reseed after at least one draw, or a cache refill (more than 64 flips); spec: always."""
     if sc.kind == "spec":
         return True
+    if sc.kind == "threads":
+        return len(sc.runs) >= 2 and all(len(run) >= 4 for run in sc.runs)
     if sc.kind == "corr":
         for run in sc.runs:
             drew = False
@@ -242,6 +264,23 @@ def judge_seedalone(c_exe, sc):
             op = sc.runs[0][sc.runs[0].index("mark") + 1 + d] if d < len(ref) else "?"
             return ("after the same seed, `%s` returned different values in run 0 and run %d (%s): '%s' vs '%s'" %
                     (op, i, sc.mode, ref[d] if d < len(ref) else "<nothing>", am[d] if d < len(am) else "<nothing>"))
+    return None
+
+
+def judge_threads(c_exe, sc):
+    """None if every run prints the same when all threads run at once as when they run one after the other."""
+    one = Scenario(sc.kind, "seq", sc.runs)
+    two = Scenario(sc.kind, "conc", sc.runs)
+    rc1, a, e1 = run_c(c_exe, one)
+    rc2, b, e2 = run_c(c_exe, two)
+    if rc1 != 0 or rc2 != 0 or len(a) != len(b) or len(a) != len(sc.runs):
+        return "implementation stopped: rc=%d/%d %s %s" % (rc1, rc2, e1[-300:], e2[-300:])
+    for i, (x, y) in enumerate(zip(a, b)):
+        d = vlib.first_diff(x, y)
+        if d is not None:
+            return ("thread %d, operation %d `%s` (after `%s`): alone '%s' vs with %d other threads running '%s'" %
+                    (i, d, sc.runs[i][d] if d < len(sc.runs[i]) else "?", sc.runs[i][d - 1] if 0 < d <= len(sc.runs[i]) else "",
+                     (x[d] if d < len(x) else "<nothing>")[:120], len(sc.runs) - 1, (y[d] if d < len(y) else "<nothing>")[:120]))
     return None
 
 
